@@ -96,7 +96,26 @@ def plan(tier, seed):
     return P.cases
 
 
+def _overflow_guard(case, res, runner, is_single, to_double):
+    """A violation that shows NaN/inf in a single-precision case may be float32 overflow
+    (un-normalised kernel weights applied several times): decide the same case in double
+    precision; if it holds there the single-precision run says nothing either way."""
+    why = str(res.get("why", ""))
+    if res.get("verdict") == "violated" and is_single and ("nan" in why or "inf" in why):
+        r64 = runner(to_double)
+        if r64.get("verdict") == "held":
+            return {"verdict": "inconclusive", "sig": "c64-overflow", "nontrivial": False,
+                    "why": "single-precision overflow (holds in double precision): " + why[:120]}
+        return r64
+    return res
+
+
 def run_case(case):
+    return _overflow_guard(case, run_one(case), run_one, sum(case["rs"]) % 6 == 0,
+                           dict(case, force_double=True))
+
+
+def run_one(case):
     desc = case["desc"]
     rng = rng_for(case)
     sig = lops.signature(desc)
@@ -121,7 +140,7 @@ def run_case(case):
         opn = float(np.linalg.norm(ONDFT.ndft_matrix(coord, desc["ishape"][-desc["nd"]:]), 2))
     else:
         tol = 1e-10
-    single = (not toep) and sum(case["rs"]) % 6 == 0
+    single = (not toep) and sum(case["rs"]) % 6 == 0 and not case.get("force_double")
     if single:
         tol = 2e-4
         sig += "|c64"
